@@ -44,6 +44,14 @@ Theorem C17_unmark : forall s x, inv_file_ok s -> memN x (invalid (fst (unmark s
 Proof. exact unmark_clears. Qed.
 Print Assumptions C17_unmark.
 
+(* ... and only it: every other marked hash stays marked (and so stays refused, C17_refused); the
+   tree and the tip are untouched *)
+Theorem C17_unmark_only_that : forall s x y, y <> x ->
+  memN y (invalid (fst (unmark s x))) = memN y (invalid s) /\
+  nodes (fst (unmark s x)) = nodes s /\ tip (fst (unmark s x)) = tip s.
+Proof. exact unmark_keeps_others. Qed.
+Print Assumptions C17_unmark_only_that.
+
 Example C17_example :
   let s := fst (run ex_cfg (init ex_g) (firstn 9 ex_ops)) in
   find 5 (nodes s) = None /\ tip s = 4 /\ invalid s = [5] /\
